@@ -662,7 +662,7 @@ pub fn generate(rng: &mut Rng) -> Workload {
         _ => "all".to_string(),
     };
     if rng.chance(1, 6) {
-        let kind: &'static str = *rng.pick(&["undefined-identifier", "wrong-arity", "missing-include", "error-directive", "redefinition", "type-error", "unknown-pipeline", "unterminated-conditional", "layout-mismatch", "layout-mismatch"]);
+        let kind: &'static str = *rng.pick(&["undefined-identifier", "wrong-arity", "missing-include", "error-directive", "redefinition", "type-error", "unknown-pipeline", "unterminated-conditional", "layout-mismatch", "layout-mismatch", "duplicate-pipeline-properties", "duplicate-sampler-properties", "duplicate-pipeline-properties", "duplicate-sampler-properties"]);
         info.injected_error = Some(kind);
         match kind {
             "undefined-identifier" => main_text = main_text.replacen("    uint r = dtid.x;\n", "    uint r = dtid.x + not_declared_anywhere;\n", 1),
@@ -678,6 +678,29 @@ pub fn generate(rng: &mut Rng) -> Workload {
                 for b in 0..2 + rng.below(4) {
                     let body = *rng.pick(&["float3 a; float b;", "float a; float3 b; float c;", "half3 h; half k;", "uint3 u; uint v; float2 w;", "double d; float3 f; float g;"]);
                     statics_text.push_str(&format!("struct Skew{} {{ {} }};\nStructuredBuffer<Skew{}> g_skew{};\n", b, body, b, b));
+                }
+            }
+            "duplicate-pipeline-properties" | "duplicate-sampler-properties" => {
+                // several different properties of one block given twice: which repeat the diagnostic names must not depend on
+                // anything but the input
+                let pool: &[&str] = if kind == "duplicate-pipeline-properties" {
+                    &["ComputeShader = Main;", "DefaultBindGroup = 0;", "DepthTargetFormat = \"D32_FLOAT\";", "RenderTargetFormat0 = \"R8G8B8A8_UNORM\";", "CullMode = \"None\";", "WindingOrder = \"Clockwise\";"]
+                } else {
+                    &["Filter = MIN_MAG_MIP_LINEAR;", "AddressU = Clamp;", "AddressV = Clamp;", "AddressW = Clamp;"]
+                };
+                let mut picked: Vec<&str> = pool.to_vec();
+                rng.shuffle(&mut picked);
+                picked.truncate(2 + rng.below(pool.len() - 1));
+                let repeated = 2 + rng.below(picked.len() - 1);
+                let mut lines: Vec<&str> = picked.clone();
+                lines.extend_from_slice(&picked[..repeated]);
+                // the repeats follow the first occurrences in any order
+                rng.shuffle(&mut lines[picked.len()..]);
+                let block: String = lines.iter().map(|l| format!("    {}\n", l)).collect();
+                if kind == "duplicate-pipeline-properties" {
+                    main_text = main_text.replacen("Pipeline P0\n{\n    ComputeShader = Main;\n}\n", &format!("Pipeline P0\n{{\n{}}}\n", block), 1);
+                } else {
+                    main_text = format!("SamplerState g_twice_sampler = StaticSampler\n{{\n{}}};\n\n{}", block, main_text);
                 }
             }
             "unknown-pipeline" => mode = "named:NoSuchPipeline".to_string(),
